@@ -26,11 +26,11 @@ func init() { host.Register(impl, state) }
 
 // Case: a pipeline and the schedule matrix it is run under.
 type Case struct {
-	Spec     *pipes.Spec `json:"spec"`
-	Text     string      `json:"text"`
-	Procs    []int       `json:"gomaxprocs"`
-	Repeats  int         `json:"repeats"`
-	SleepUs  int         `json:"sleep_us"`
+	Spec    *pipes.Spec `json:"spec"`
+	Text    string      `json:"text"`
+	Procs   []int       `json:"gomaxprocs"`
+	Repeats int         `json:"repeats"`
+	SleepUs int         `json:"sleep_us"`
 }
 
 type info struct {
@@ -153,7 +153,7 @@ func TestPropC06(t *testing.T) {
 
 func closureTerminal(n string) bool {
 	switch n {
-	case "reduce", "mapReduce", "minMax", "visit", "order", "groupByInt", "multiUse":
+	case "reduce", "mapReduce", "minMax", "visit", "order", "groupByInt", "multiUse", "multiUseNested":
 		return true
 	}
 	return false
